@@ -3,7 +3,7 @@
 From LC Require Import Lib.Bytes Lib.Lex Lib.Fields Lib.PathM Gen.Consts
   Model.MountInfo Model.FsTree Model.Kernel Model.Layers Cases.Verdict Cases.LC Cases.C08
   Proofs.MonadP Proofs.MountInfoP Proofs.PlainRunP Proofs.LayerMapP Proofs.LayerStateP
-  Proofs.ForestP Proofs.ViewP Proofs.C08FoldP Proofs.C08DocP Proofs.C08P Proofs.C08ProbeP.
+  Proofs.ForestP Proofs.ViewP Proofs.C08FoldP Proofs.C08DocP Proofs.C08P Proofs.C08ProbeP Proofs.LayerNamesP.
 From Coq Require Import ZifyBool ZifyNat ZifyN.
 Open Scope N_scope.
 Import LC LCS.
@@ -153,9 +153,6 @@ Proof. rewrite imports_of_eq. reflexivity. Qed.
 Lemma forallb_map {A B} (P : B -> bool) (g : A -> B) l : forallb P (map g l) = forallb (fun a => P (g a)) l.
 Proof. induction l as [|a r IH]; cbn [map forallb]; [reflexivity|]. now rewrite IH. Qed.
 
-Definition layer_names_nonempty (c : cfgT) (w : wobs) : bool :=
-  forallb (fun x => negb (beq (l_name x) [])) (layers_on_disk c (wo_fs w)).
-
 Section Mounted.
 Variables (c : cfgT) (f : fsT) (tab : list kline) (um : users_map) (ms : list mount).
 Let m := read_layer_files c f.
@@ -219,11 +216,10 @@ End Mounted.
 (* ------------------------------------------------------------------ (c) *)
 Theorem mounted_means_complete cfg w e um :
   wf_table (ks_tab (wo_ks w)) = true ->
-  layer_names_nonempty cfg w = true ->
   dir_test_agrees cfg w = true ->
   mounted_complete_spec cfg w (view_of_model cfg w e CProbe um) = true.
 Proof.
-  intros Hwt Hnames Hdt. unfold view_of_model.
+  intros Hwt Hdt. unfold view_of_model.
   destruct (run e cfg um CProbe (world_of w)) as [o st] eqn:Erun.
   unfold mounted_complete_spec. cbn [v_env v_cmd v_res v_layers v_after wo_fs v_users].
   destruct (plain_env e) eqn:Epl; [|reflexivity]. cbn [negb].
@@ -243,10 +239,7 @@ Proof.
   set (m := read_layer_files cfg f) in *.
   unfold probe_of in Hp. fold tab in Hp. rewrite (probe_render tab Hwt) in Hp.
   destruct (view_spec tab) as (ms' & Hv & Hms). rewrite Hv in Hp. injection Hp as <- <-.
-  unfold layer_names_nonempty, layers_on_disk in Hnames. fold f m in Hnames.
-  assert (Hne' : forall x, In x m -> l_name x <> []).
-  { intros x Hx. rewrite forallb_forall in Hnames. specialize (Hnames x Hx). apply negb_true_iff in Hnames.
-    now apply beq_false in Hnames. }
+  assert (Hne' : forall x, In x m -> l_name x <> []) by (intros x Hx; now apply (read_layer_files_names cfg f)).
   unfold dir_test_agrees, all_imports, layers_on_disk in Hdt. fold f m in Hdt. rewrite forallb_forall in Hdt.
   rewrite forallb_sort_lobs, forallb_map. apply forallb_forall. intros l Hl.
   cbn [lobs_of lo_state lo_name].
